@@ -20,7 +20,7 @@ using dbgroup::thread::EpochManager;
 constexpr size_t kN = dbgroup::thread::kMaxThreadNum;
 constexpr size_t kInitial = EpochManager::kInitialEpoch;
 
-enum Profile : int { kPin = 0, kAdvance = 1, kLists = 2, kSequential = 3, kStaleNode = 4 };
+enum Profile : int { kPin = 0, kAdvance = 1, kLists = 2, kSequential = 3, kStaleNode = 4, kPlainSteps = 5 };
 enum Kind : int {
   // worker operations (concurrent profiles)
   kGuard = 0,     // a = hold yields, b = 1: GetProtectedEpochs (list checks) / 0: CreateEpochGuard, c = re-reads of the list
@@ -766,10 +766,10 @@ void generate(Program &prog, dsim::Config &cfg, dsim::Rng &pr, dsim::Rng &cr, in
     cfg.max_steps = 2000000;
     return;
   }
-  if (profile == kStaleNode && W >= 2) {
+  if ((profile == kStaleNode && W >= 2) || (profile == kPlainSteps && W >= 1)) {
     // directed family: one guard pins a middle list node for a long time while another worker is delayed inside guard creation
     // across hundreds of epochs (several node creations and retirements)
-    W = 2;
+    W = (profile == kPlainSteps && (W < 2 || pr.chance(1, 2))) ? 1 : 2;
     prog.params = {300 + static_cast<int64_t>(pr.below(200)), W, static_cast<int64_t>(pr.below(1000)), 1};
     std::vector<Op> coord;
     const int bursts = 2 + static_cast<int>(pr.below(2));
@@ -806,6 +806,13 @@ void generate(Program &prog, dsim::Config &cfg, dsim::Rng &pr, dsim::Rng &cr, in
     }
     cfg.spin_bound = 3 * n + 12;
     cfg.max_steps = 200000;
+    if (profile == kPlainSteps) {
+      // finer than the atomic-step granularity of the listed properties: inside API calls every plain access to shared memory is a
+      // scheduling point too (exploration of the unsynchronised list walk and slot fields; findings are recorded, see DESIGN 11.5)
+      cfg.plain_sched = true;
+      cfg.pct_len = 600;
+      cfg.max_steps = 600000;
+    }
     return;
   }
   // concurrent profiles.  params: [prologue forwards, W, probe hash base, probe hash stride]
@@ -820,7 +827,7 @@ void generate(Program &prog, dsim::Config &cfg, dsim::Rng &pr, dsim::Rng &cr, in
   }
   prog.params = {prologue, W, static_cast<int64_t>(pr.below(1000)), static_cast<int64_t>(pr.below(3))};
   std::vector<Op> coord;
-  const int bursts = 1 + static_cast<int>(pr.below(3));
+  const int bursts = 1 + static_cast<int>(pr.below(3)) + (scale() >= 1 && pr.chance(1, 3) ? 2 : 0);
   for (int b = 0; b < bursts; ++b) {
     Op o;
     o.kind = kForward;
@@ -832,7 +839,7 @@ void generate(Program &prog, dsim::Config &cfg, dsim::Rng &pr, dsim::Rng &cr, in
   prog.threads.push_back(coord);
   for (int s = 1; s <= W; ++s) {
     std::vector<Op> ops;
-    const int nops = 1 + static_cast<int>(pr.below(4));
+    const int nops = 1 + static_cast<int>(pr.below(scale() >= 1 ? 6 : 4));
     for (int i = 0; i < nops; ++i) {
       Op o;
       const uint64_t x = pr.below(100);
